@@ -77,6 +77,7 @@ type Pipe struct {
 	suffix      map[int]string
 	long        map[int]string
 	nsub        int
+	ForeignNS   bool // Garbage entries are transactions of a foreign namespace (set by C15 for every other behaviour)
 	late        bool // the server clock has passed ExpiringUntil
 	nFlushFails int  // FlushFails steps so far (chooses which CAS write fails)
 	Inflated    int  // submitted updates built by InflatingRequest
@@ -258,9 +259,21 @@ func (c *verClient) Get(t uint64) (protocol.Version, error) {
 	return nil, fmt.Errorf("protocol parameters are not defined for anchoring time: %d", t)
 }
 
-type clientProvider struct{ c protocol.Client }
+type clientProvider struct {
+	c protocol.Client
+	p *Pipe
+}
 
-func (p clientProvider) ForNamespace(string) (protocol.Client, error) { return p.c, nil }
+// ForNamespace knows the pipeline's namespace only; for an entry of a foreign namespace it takes the snapshot the
+// transaction processor spy would have taken (the observer never gets that far) and reports the error.
+func (cp clientProvider) ForNamespace(ns string) (protocol.Client, error) {
+	if ns != NS && cp.p != nil {
+		cp.p.doneCh <- obsSnap{store: cp.p.storeProj(), unpub: cp.p.unpubIDs(), puts: 0}
+		<-cp.p.contCh
+		return nil, errors.New("no protocol client for namespace " + ns)
+	}
+	return cp.c, nil
+}
 
 // writer adapter with the queue-add fault
 type writerGate struct{ p *Pipe }
@@ -456,7 +469,7 @@ func New(unpubOn bool, kt concr.KeyType) (*Pipe, error) {
 	}
 	proc := processor.New(NS, p.store, p.pc, procOpts...)
 	p.handler = dochandler.New(NS, []string{Alias}, p.pc, writerGate{p}, proc, noMetrics{}, dhOpts...)
-	p.obs = observer.New(&observer.Providers{Ledger: p, ProtocolClientProvider: clientProvider{p.pc}})
+	p.obs = observer.New(&observer.Providers{Ledger: p, ProtocolClientProvider: clientProvider{c: p.pc, p: p}})
 	p.obs.Start()
 	return p, nil
 }
@@ -788,8 +801,13 @@ func (p *Pipe) Exec(s Step, dids []int) error {
 		p.log(map[string]interface{}{"ev": "Clock"})
 	case "Garbage":
 		i := len(p.ledger) + 1
+		ns := NS
+		if p.ForeignNS {
+			// the other way in which a transaction cannot be read: it belongs to a namespace this node has no protocol for
+			ns = "did:foreign"
+		}
 		p.ledger = append(p.ledger, txn.SidetreeTxn{TransactionTime: uint64(i), TransactionNumber: uint64(i), AnchorString: "1.garbage-" + strconv.Itoa(i),
-			Namespace: NS, ProtocolVersion: p.curver, CanonicalReference: "ref" + strconv.Itoa(i), EquivalentReferences: []string{"eq" + strconv.Itoa(i)}})
+			Namespace: ns, ProtocolVersion: p.curver, CanonicalReference: "ref" + strconv.Itoa(i), EquivalentReferences: []string{"eq" + strconv.Itoa(i)}})
 		p.log(map[string]interface{}{"ev": "Garbage"})
 	case "Dup":
 		p.dupTxn[p.observed+1] = true
